@@ -180,6 +180,10 @@ func (f *Frame) staticCall(b *ssa.BasicBlock, st *State, fn *ssa.Function, args 
 		return f.freshResult(st, rt, name)
 	}
 	// 4. external
+	f.extCC = nil
+	if ci, ok := instr.(ssa.CallInstruction); ok && ci != nil {
+		f.extCC = ci.Common()
+	}
 	return f.externalCall(b, st, fn, fname, args, rt, name)
 }
 
@@ -331,6 +335,14 @@ func (f *Frame) contractCall(b *ssa.BasicBlock, st *State, ct *Contract, args []
 		st.guard = and(st.guard, tr.specBool(cl, env))
 	}
 	st.guard = c.defineBool("g_after_"+ct.FuncName, st.guard)
+	// self-distrust: the state after assuming a callee's ensures must still be reachable. An
+	// ensures that contradicts what the caller knows (a ghost component that was not havocked, a
+	// frame that is too strong) would otherwise prove everything after the call vacuously, and
+	// #exit-reach does not see it when another path reaches the exit.
+	if tr.safety && len(ct.Ensures) > 0 && tr.topC != nil && !tr.topC.Swept {
+		c.addObl(&Obligation{Name: fmt.Sprintf("%s#call.%s.reach", tr.oblPrefix, ct.Qual), Kind: "call.reach", Guard: st.guard, Goal: "true", ExpectSat: true,
+			Pos: "state after the call is reachable", Func: tr.oblPrefix})
+	}
 	if ct.Trusted {
 		c.note("trusted contract (body not verified): " + ct.Qual)
 	}
@@ -385,11 +397,14 @@ func (tr *Translator) summaryOf(ct *Contract) map[string]bool {
 	// and by those of its callees: every ghost key the contract lists under modifies counts as
 	// written, so that call sites havoc it before assuming the ensures
 	for _, m := range ct.Modifies {
-		if strings.HasPrefix(m, "X:") || strings.HasPrefix(m, "XS:") {
+		if (strings.HasPrefix(m, "X:") || strings.HasPrefix(m, "XS:")) && os.Getenv("MLRVC_SELFTEST_NO_GHOST_HAVOC") == "" {
 			w[m] = true
 		}
 	}
 	for _, g := range ct.Ghosts {
+		if os.Getenv("MLRVC_SELFTEST_NO_GHOST_HAVOC") != "" {
+			break
+		}
 		if g.All {
 			w["X:"+g.Name] = true
 		} else if g.Clause != nil && g.Clause.Expr != nil {
@@ -884,7 +899,10 @@ func (f *Frame) callsiteChecksNamed(b *ssa.BasicBlock, st *State, fnName string,
 		env.callArgs = args
 		g := env.expr(e).t
 		if tr.safety {
-			c.addObl(&Obligation{Name: fmt.Sprintf("%s#callsite.%s", tr.oblPrefix, cs.Callee), Kind: "call.pre", Guard: st.guard, Goal: g, Pos: cs.Text, Func: tr.oblPrefix})
+			o := c.addObl(&Obligation{Name: fmt.Sprintf("%s#callsite.%s", tr.oblPrefix, cs.Callee), Kind: "call.pre", Guard: st.guard, Goal: g, Pos: cs.Text, Func: tr.oblPrefix})
+			// the site itself must be reachable in the VC: a path the encoding cannot take (an
+			// unmodelled type switch, a contradictory callee contract) would make the clause vacuous
+			c.addObl(&Obligation{Name: o.Name + ".cover", Kind: "cover", Guard: st.guard, Goal: "true", ExpectSat: true, Pos: "call site reachable: " + cs.Text, Func: tr.oblPrefix})
 		}
 		st.guard = c.defineBool("g_callsite", and(st.guard, g))
 	}
